@@ -20,15 +20,15 @@ from simkit.loop import SimDeadlock, SimLoop
 
 PROP = "C04"
 LEVEL = "fault_enumeration"
-STEPS = ["setup_m2", "setup_m4", "setup_m6", "verify_m2", "verify_m4", "add_m2", "remove_m2"]
+STEPS = ["setup_m2", "setup_m4", "setup_m6", "verify_m2", "verify_m4", "resume_m2", "add_m2", "remove_m2"]
 CODES = [None, 0, 1, 2, 3, 4, 5, 6, 7, 8, 255]
-EXPECTED_STATE = {"setup_m2": 2, "setup_m4": 4, "setup_m6": 6, "verify_m2": 2, "verify_m4": 4, "add_m2": 2, "remove_m2": 2}
+EXPECTED_STATE = {"setup_m2": 2, "setup_m4": 4, "setup_m6": 6, "verify_m2": 2, "verify_m4": 4, "resume_m2": 2, "add_m2": 2, "remove_m2": 2}
 
 
 def build_grid() -> list[dict]:
     cells = []
     for step in STEPS:
-        drivers = ["ip"] if step in ("add_m2", "remove_m2") else ["pipe-ip", "pipe-ble", "ip"]
+        drivers = ["ip"] if step in ("add_m2", "remove_m2") else ["pipe-ble"] if step == "resume_m2" else ["pipe-ip", "pipe-ble", "ip"]
         exp = EXPECTED_STATE[step]
         states = ["expected", "absent"] + [s for s in (exp - 1, exp + 1, exp + 2, 0, 255) if s != exp]
         for driver in drivers:
@@ -68,7 +68,7 @@ def gen_plan(seed: int, tier: str) -> dict:
 
 
 def _mut_for(cell) -> dict:
-    kind = {"setup_m2": "error2", "setup_m4": "error4", "setup_m6": "error6", "verify_m2": "error", "verify_m4": "error4"}.get(cell["step"], "pairings")
+    kind = {"setup_m2": "error2", "setup_m4": "error4", "setup_m6": "error6", "verify_m2": "error", "verify_m4": "error4", "resume_m2": "error"}.get(cell["step"], "pairings")
     return {"kind": kind, "code": cell["code"], "state": cell["state"], "keep_fields": cell["keep"], "error_first": cell["first"]}
 
 
@@ -94,6 +94,8 @@ def execute(plan: dict, ch: Chooser) -> dict:
             result, exc = out["result"], out["exc"]
         elif step.startswith("verify"):
             result, exc = _run_verify(cell, ch, ctx, mut)
+        elif step == "resume_m2":
+            result, exc = _run_resume(cell, ch, ctx, mut)
         else:
             result, exc = _run_pairings(cell, ch, ctx, mut)
     finally:
@@ -124,7 +126,7 @@ def execute(plan: dict, ch: Chooser) -> dict:
                             f"{desc}: documented class {want}, raised {exc!r}")
     else:
         # no error, state expected or absent
-        if cell["keep"] or step in ("verify_m4", "add_m2", "remove_m2"):
+        if cell["keep"] or step in ("verify_m4", "add_m2", "remove_m2"):  # (resume_m2 without its fields falls back to nothing useful: must fail)
             if result is None:
                 ctx.violate("sanity-honest-failed", f"{step}/{driver}/{name}", f"{desc}: expected success, raised {exc!r}")
         else:
@@ -158,6 +160,31 @@ def _run_verify(cell, ch, ctx, mut):
         return pipe.run(get_session_keys(pd), vr.handle), None
     except Exception as e:  # noqa: BLE001
         return None, e
+
+
+def _run_resume(cell, ch, ctx, mut):
+    """an honest full pair-verify first (BLE-style decoding), then a resume attempt whose M2 carries the genuine resume
+    fields (method, new session id, tag proving the previous secret) plus the cell's error / state variant"""
+    from aiohomekit.protocol import get_session_keys
+
+    ident, pd, controllers = _identity(cell, ch)
+    sessions: dict = {}
+    vr0 = hap.VerifyResponder(ident, controllers, ch.nbytes("eph0", 32), sessions=sessions, new_session_id=ch.nbytes("sid0", 8))
+    try:
+        sid, derive = Pipe("ble").run(get_session_keys(pd), vr0.handle)
+    except Exception as e:  # noqa: BLE001
+        ctx.violate("sanity-honest-failed", "resume-prelude", f"honest full verify before the resume failed: {e!r}")
+        return None, e
+    sessions[vr0.session_id()] = vr0.shared
+    vr = hap.VerifyResponder(ident, controllers, ch.nbytes("eph", 32), mut=mut, sessions=sessions, new_session_id=ch.nbytes("sid1", 8))
+    try:
+        res = Pipe("ble").run(get_session_keys(pd, sid, derive), vr.handle), None
+    except Exception as e:  # noqa: BLE001
+        return None, e
+    if not vr.resumed:
+        ctx.violate("harness", "resume-not-offered", "the reference accessory did not answer with a resume reply")
+    ctx.probe("resume_reply_sent")
+    return res
 
 
 def _run_pairings(cell, ch, ctx, mut):
